@@ -66,7 +66,10 @@ PROPS = {
                         # (an entry whose deadlines are wrong after a refresh is a C11 matter too: "a failed reload leaves it and its expiry untouched")
                         lambda f: f['class'] in ('C11', 'entry') or (f['op'] in ('end', 'call', 'ret') and f['class'] in ('result', 'events'))),
                     # asynchronous executor, real goroutines: readers keep getting the old value while the reload is in flight, the swap happens once or not at all
-                    {'kind': 'unit', 'name': 'concrefresh', 'hcmd': 'conc-refresh', 'dcmd': 'concrefresh', 'quick': 60, 'thorough': 3000, 'chunk': 10, 'args': []}],
+                    {'kind': 'unit', 'name': 'concrefresh', 'hcmd': 'conc-refresh', 'dcmd': 'concrefresh', 'quick': 60, 'thorough': 3000, 'chunk': 10, 'args': []},
+                    # "reads of fresh entries trigger nothing": loader-backed Gets racing overwrites of a fresh key
+                    {'kind': 'unit', 'name': 'concwindow', 'hcmd': 'conc-window', 'dcmd': 'concwindow', 'quick': 40, 'thorough': 2000, 'chunk': 10, 'args': [],
+                     'accept': lambda f: 'C11' in f['msg']}],
     },
     'C12': {
         'modules': ['OtterVerif.Props.C12'],
@@ -194,6 +197,9 @@ PROPS['C02'] = {
                 conc('concresize', 'conc-resize', 120, 6000, 10),
                 # each operation behaves as on a sequential map keyed by == (floats, strings, interfaces ...); callbacks run once also when the insert grows the table
                 {'kind': 'unit', 'name': 'keys', 'hcmd': 'unit-keys', 'dcmd': 'keys', 'quick': 40, 'thorough': 2000, 'chunk': 10, 'args': []},
+                # a loader-backed Get racing overwrites of a key that is present throughout never loads
+                {'kind': 'unit', 'name': 'concwindow', 'hcmd': 'conc-window', 'dcmd': 'concwindow', 'quick': 40, 'thorough': 2000, 'chunk': 10, 'args': [],
+                 'accept': lambda f: 'C02' in f['msg']},
                 # a value returned by Get (also to a caller that only joined the load) is readable by the same goroutine afterwards
                 {'kind': 'unit', 'name': 'concflight', 'hcmd': 'conc-flight', 'dcmd': 'concflight', 'quick': 64, 'thorough': 3000, 'chunk': 8, 'args': [],
                  'accept': lambda f: 'C02' in f['msg']}],
